@@ -46,6 +46,17 @@ func (s *ClientServerStream) Close(err error) {
 	s.closeErr = err
 	s.mu.Unlock()
 	close(s.serverSend)
+	if s.ctx.Err() == nil {
+		// header metadata that was set but never sent goes out with the status, as it does on a real server
+		// (nothing reaches a client that has already ended the call)
+		s.headerM.Lock()
+		select {
+		case <-s.headerC:
+		default:
+			close(s.headerC)
+		}
+		s.headerM.Unlock()
+	}
 	s.closed()
 }
 
@@ -179,6 +190,9 @@ func (s *serverStream) Context() context.Context {
 }
 
 func (s *serverStream) SendMsg(m any) error {
+	if s.ctx.Err() != nil {
+		return s.closeErrLocked() // the call has ended: do not flush headers to a client that has gone
+	}
 	s.sendHeaderIfNeeded()
 	select {
 	case <-s.ctx.Done():
